@@ -358,6 +358,22 @@ theorem C13_retry_streamed {α : Type} (f : Tracker → α) (t0 : Tracker) (d a 
     f (addBlock (blockChunk t0 d a).1 h p).1 = f { t0 with listeners := sawAll t0.listeners } := by
   rw [C13_atomic_streamed t0 d a h p k hc hch hr]
 
+/-! ## 5b. Restart
+
+Under an unchanged configuration a restart keeps the trusted oracle set (and the whole view), so the
+majority rule after a restart is the rule before it.  (Tied to the code by the node-level harness
+group: real `Node`, persister, `restore_node`, configured oracle keys.) -/
+
+theorem C13_restart_trusted (t : Tracker) :
+    (restart t).trusted = t.trusted ∧ (restart t).view = t.view ∧ Clean (restart t) :=
+  ⟨rfl, rfl, fun _ => rfl⟩
+
+/-- an accepted block after a restart satisfies the same majority over the same trusted set -/
+theorem C13_majority_after_restart (t : Tracker) (h : Header) (p : Proof)
+    (hr : (addBlock (restart t) h p).2 = .ok) (hfh : t.tip.fh ≠ 0) :
+    p.verifyOk = true ∧ t.trusted.length ≤ 2 * keyMatches t.trusted p.attested :=
+  C13_majority (restart t) h p hr hfh
+
 /-! ## 6. Generated constants and the header window -/
 
 theorem C13_gen_ok : 1 ≤ maxReorgSize ∧ 0 < diffchangeInterval := by
